@@ -1,5 +1,6 @@
 """C04 - linear, parity and mapping constraint builders mean what their names say."""
 import itertools
+import os
 
 from hypothesis import strategies as st
 
@@ -402,6 +403,7 @@ def run_mapping(case):
                     for j in range(m):
                         want &= FULL & ~(image_is(u1, j) & image_is(u2, j))
             cmp_got, cmp_want = got & inrange, want & inrange
+            pair_bad = FULL & ~want      # two elements with the same legal image, whatever the other elements do
         elif force == 'nondecreasing':
             want = FULL
             for u1 in range(1, n + 1):
@@ -410,8 +412,14 @@ def run_mapping(case):
                         for j2 in range(j1):
                             want &= FULL & ~(image_is(u1, j1) & image_is(u2, j2))
             cmp_got, cmp_want = got & inrange, want & inrange
+            pair_bad = FULL & ~want      # two elements with legal images in decreasing order, whatever the other elements do
         else:
             return Outcome(nontrivial=False, labels=('surjective-binary-undocumented',))
+    if kind == 'binary' and force in ('injective', 'nondecreasing') and got & pair_bad:
+        a = tt.first_row(got & pair_bad)
+        raise Violation("{} binary mapping {}: force_{}_mapping accepts assignment {} in which two elements have legal images that {}".format(
+            clsname, {k: case[k] for k in case if k not in ('cls', 'kind', 'force')}, force, tt.row_assignment(nv, a),
+            'coincide' if force == 'injective' else 'are in decreasing order'))
     if cmp_got != cmp_want:
         a = tt.first_row(cmp_got ^ cmp_want)
         asg = tt.row_assignment(nv, a)
@@ -487,7 +495,7 @@ SUBCHECKS = [
              required_labels=['negative-coefficient', 'op<', 'op>', 'op<=', 'op==', 'op>=', 'no-terms']),
     SubCheck('mapping', run_mapping, strategy=strat_mapping, enumerate_cases=enum_mapping,
              quick=600, thorough=20000,
-             rule="new_mapping(n,m) n<=3,m<=4; new_binary_mapping n<=4,m<=8; every sparse mapping on <=2x2 (thorough 3x3) bipartite graphs; one force_* call each, CNF and OPB; oracle: relation decoded via to_index, functional condition evaluated on all assignments; non-trivial: n>=2 and m>=2",
+             rule="new_mapping(n,m) n<=3,m<=4; new_binary_mapping n<=4,m<=8; every sparse mapping on <=2x2 (thorough 3x3) bipartite graphs; one force_* call each, CNF and OPB; oracle: relation decoded via to_index, functional condition evaluated on all assignments (binary mappings: equality on the assignments where every image is a legal value, and no accepted assignment may contain two elements whose legal images coincide / decrease, whatever the others are); non-trivial: n>=2 and m>=2",
              required_labels=['unary', 'sparse', 'binary', 'm-not-power-of-two', 'zero-bits', 'empty-side'] + FORCES),
 ]
 
